@@ -1,3 +1,4 @@
+mod f_goodday;
 mod f_hijri;
 mod f_policy;
 mod f_range;
